@@ -9,6 +9,9 @@ class SpecC09(e3_driver.Spec):
                'NeuralBound', 'NautilusBound', 'NautilusBound', 'PhaseShift']
     profile = dict(max_len=7, w_split=2, w_trim=1, w_sample=3, w_restart=3,
                    w_update=2, w_pool=1)
+    # (the numerically degenerate clouds are C07's subject only)
+    clouds = ['blob', 'two', 'three', 'elongated', 'curved', 'face', 'corner',
+              'wrapped', 'fill', 'many', 'triangles']
     chunk = 8
     runs = dict(quick=960, thorough=16000)
     rule = ('one case = a bound of a seeded class and construction (UnitCube, '
